@@ -31,6 +31,8 @@ def rand_stream(rng, sid, signal, props, opts=None, nb=None, guarded=True, size=
         batches.append(b)
     if rng.random() < 0.2 and nb > 1:
         batches[-1] = dict(batches[-1], resend=1)
+    if rng.random() < 0.25 and nb > 1:      # the public statistics API is used in the middle of the stream
+        batches[rng.randrange(1, nb)]["stats"] = True
     return {"id": sid, "signal": signal, "opts": opts or {}, "batches": batches, "props": props,
             "mode": 0 if guarded else 2}
 
